@@ -226,6 +226,9 @@ def run(ctx):
     for f in ex:
         inits = [fmt(ir.unwrap(e["expr"])) for _, _, e in f.all_elems() if e["kind"] == "init"]
         ctx.check(any("make_string(forward(args)...)" in s0 for s0 in inits), "R08.5", f, "message-is-make_string", "exception is initialised with %s" % inits, f)
+    ctx.rule("R08.6", "no member of the formatter / exception machinery is declared noexcept and reaches a raise (an arity error has to be catchable whichever way the text is obtained)")
+    from .common import rule_noexcept
+    rule_noexcept(ctx, "R08.6", lambda f: f.file.endswith(("format/format.hpp", "except/exception.hpp", "except/raise.hpp")), "an arity mismatch has to raise", minimum=8)
     ctx.assume("the output equation for all format strings (nested / lone braces) depends on std::regex_iterator's match semantics: not decided")
 
 
